@@ -9,6 +9,7 @@ CONSTANTS
   RNG = "local"
   AddrBytes = "fill"
   NetBase = "as-written"
+  DerivedMode = "once"
 VIEW view
 INVARIANTS TypeOK Contained WellFormed
 CHECK_DEADLOCK FALSE
